@@ -1,15 +1,17 @@
 #!/bin/bash
 # tools/confirm_seeded.sh <tag e.g. C07-a>: confirm a sub-agent's seeded change in its scratch worktree
 # (demo fails with the change, passes without, test suite passes with the change) and file it under /verif/seeded/.
+# Uses git apply / git checkout only (git stash is shared by all worktrees of a repository).
 tag=$1; u=${tag/-/_}; wt=/tmp/wt/$tag
 cd $wt || exit 2
 [ -f CHANGE_$u.diff ] && [ -f DEMO_$u.py ] || { echo "missing files"; exit 2; }
 run_demo() { timeout 900 /venv/bin/python DEMO_$u.py > /tmp/demo_$u.$1.txt 2>&1; echo $?; }
+git checkout -q -- . && git apply CHANGE_$u.diff || { echo "$tag: patch does not apply to a clean tree"; exit 2; }
 with=$(run_demo with)
-tests=$(timeout 900 /venv/bin/python -m pytest -q -p no:cacheprovider --timeout=900 2>&1 | tail -1)
-git stash -q
+tests=$(timeout 900 /venv/bin/python -m pytest -q -p no:cacheprovider --timeout=900 --ignore=DEMO_$u.py 2>&1 | tail -1)
+git checkout -q -- .
 without=$(run_demo without)
-git stash pop -q
+git apply CHANGE_$u.diff
 echo "$tag: demo with change rc=$with ; without rc=$without ; tests: $tests"
 if [ "$with" != "0" ] && [ "$without" = "0" ] && echo "$tests" | grep -q "316 passed"; then
   d=/verif/seeded/$tag; mkdir -p $d
